@@ -1,10 +1,27 @@
 """Opening reader objects on simulated storage, executing calls, computing the truth."""
 import gc
 
+import glob
+import os
+
 from sim import core, storage, env
 from . import battery
 
 FPATH = storage.PREFIX + 'f.sgz'
+
+# xarray and whatever it imports lazily must be loaded while nothing is patched (a module imported
+# under the simulator's patches would bind the simulated names for good)
+try:
+    import xarray as _xr
+    from seismic_zfp.sgz_xarray import SeismicZfpBackendEntrypoint as _EP
+    _fx = sorted(glob.glob(os.path.join(env.REPO, 'test_data', 'small_4bit.sgz')))
+    if _fx:
+        _ds = _xr.open_dataset(_fx[0], engine=_EP)
+        _ = _ds['data'].isel(il=slice(0, 1), xl=slice(0, 2), z=slice(0, 3)).values
+        _ds.close()
+    HAVE_XARRAY = True
+except Exception:                                          # pragma: no cover
+    HAVE_XARRAY = False
 
 _caches = None
 
@@ -45,30 +62,52 @@ OPENERS = {
     'emulator_ccs1': {'kind': 'emulator', 'via': 'path', 'ccs': 1},
     'emulator_blob': {'kind': 'emulator', 'via': 'blob'},
     'emulator_handle': {'kind': 'emulator', 'via': 'handle'},
+    'xarray': {'kind': 'xarray', 'via': 'path'},
 }
 
 
-def open_obj(fs, opener, path=FPATH):
+def applicable(kind, call):
+    """Which calls make sense on which kind of object."""
+    if call[0].startswith('xr_'):
+        return kind == 'xarray'
+    if kind == 'xarray':
+        return False
+    if call[0].startswith('em_'):
+        return kind == 'emulator'
+    return True
+
+
+def open_obj(fs, opener, path=FPATH, target=None):
+    """target: re-use this handle / blob client (the one a previous open_obj left in fs.last_target)."""
     o = OPENERS[opener] if isinstance(opener, str) else opener
     from seismic_zfp.read import SgzReader
     from seismic_zfp.segyio_emulator import SegyioEmulator
     via = o.get('via', 'path')
-    if via == 'path':
+    if target is not None:
+        pass
+    elif via == 'path':
         target = path
     elif via == 'handle':
         target = fs.open(path, 'rb')
     else:
         target = storage.SimBlob(fs, path)
+    fs.last_target = target
     if o['kind'] == 'reader':
         return SgzReader(target, preload=o.get('preload', False), chunk_cache_size=o.get('ccs'))
     if o['kind'] == 'emulator':
         return SegyioEmulator(target, chunk_cache_size=o.get('ccs'))
+    if o['kind'] == 'xarray':
+        import xarray as xr
+        from seismic_zfp.sgz_xarray import SeismicZfpBackendEntrypoint
+        return xr.open_dataset(target, engine=SeismicZfpBackendEntrypoint)
     raise ValueError(o)
 
 
 def close_obj(obj):
     try:
-        if hasattr(obj, 'subvolume') or hasattr(obj, 'trace') and hasattr(obj, 'header'):
+        if HAVE_XARRAY and isinstance(obj, _xr.Dataset):
+            obj.close()
+        elif hasattr(obj, 'subvolume') or hasattr(obj, 'trace') and hasattr(obj, 'header'):
             obj.__exit__(None, None, None)
             obj.loader.clear_cache()
         else:
@@ -106,7 +145,7 @@ def truth_table(data, calls_by_kind, path=FPATH):
 
     def fn():
         for kind, calls in calls_by_kind.items():
-            opener = 'path' if kind == 'reader' else 'emulator'
+            opener = {'reader': 'path', 'emulator': 'emulator', 'xarray': 'xarray'}[kind]
             for call in calls:
                 key = (kind, repr(call))
                 if key not in table:
